@@ -474,7 +474,10 @@ def shrink(prop, cfg, rec):
     for _ in range(60):
         if time.time() > t_end or len(best["req"]) > 30000:
             break
-        cands = cand_fn(best["req"].split(" "))
+        try:
+            cands = cand_fn(best["req"].split(" "))
+        except Exception:
+            cands = []      # a request shape the shrinker does not know: keep the failing request as it is
         if not cands:
             break
         rs = run_requests(prop, [" ".join(c) for c in cands[:64]], "shrink")
